@@ -165,7 +165,7 @@ func init() {
 		Chunks:     func(c *drv.Ctx) int { return c.Pick(1, 10) },
 		Opts: func(c *drv.Ctx) lab.CollectOpts {
 			return lab.CollectOpts{N: c.Pick(128, 240), Profiles: []string{"switchy", "switchy", "plain", "switchy", "backtracky", "switchy"},
-				Inputs: c.Pick(24, 36), Hostile: false, MaxRune: true}
+				Inputs: c.Pick(24, 36), Hostile: false, MaxRune: true, LeadSwap: true}
 		},
 		Modes: func(c *drv.Ctx, pt *Point, v lab.Variant) []proto.Mode { return []proto.Mode{memoMode} },
 		Judge: func(c *drv.Ctx, pt *Point, l *lab.Lab) []Mismatch {
@@ -327,7 +327,7 @@ func init() {
 		Chunks:   func(c *drv.Ctx) int { return c.Pick(1, 8) },
 		Opts: func(c *drv.Ctx) lab.CollectOpts {
 			return lab.CollectOpts{N: c.Pick(100, 300), Profiles: []string{"actiony", "backtracky", "actiony", "deep", "actiony"},
-				Inputs: c.Pick(24, 40), Hostile: true,
+				Inputs: c.Pick(24, 40), Hostile: true, Pad: 8,
 				Score: scoreBy(func(r *refpeg.Result, in []rune) int {
 					if !r.OK {
 						return 0
